@@ -350,7 +350,8 @@ Inductive op :=
 | OClone (src dst : nat)
 | OSerde (slot : nat)
 | OProbe (slot : nat)
-| ODrop (slot : nat).
+| ODrop (slot : nat)
+| OBuild (calls : list (Setter * F)).      (* DataItem::builder().<setters>.build() *)
 
 (* observable result of one op *)
 Inductive obs :=
@@ -360,7 +361,8 @@ Inductive obs :=
 | BDead                                 (* slot empty *)
 | BNoScalar
 | BOut (o : list F)
-| BProbe (k : Kind) (args : list N) (m : option F) (period : option N).
+| BProbe (k : Kind) (args : list N) (m : option F) (period : option N)
+| BBuilt (b : Bar F).
 
 Definition store := list (option St).
 Definition sget (st : store) (i : nat) : option St := nth i st None.
@@ -429,6 +431,9 @@ Definition step (st : store) (o : op) : store * obs :=
       | None => (st, BDead)
       | Some v => (st, BProbe (kind_of v) (fst (display_args v)) (snd (display_args v)) (period_of v)) end
   | ODrop s => (sset st s None, BOk)
+  | OBuild calls =>
+      (st, match build O (fold_left (fun b c => set b (fst c) (snd c)) calls builder_new) with
+           | Ok b => BBuilt b | Err e => BErr e | Panic => BPanic end)
   end.
 
 Fixpoint run (st : store) (ops : list op) : store * list obs :=
